@@ -12,6 +12,22 @@ def m(i):
 
 
 STEP_UP = "xsub(%s, %s) > 0" % (m('j + 1'), m('j'))
+STEP_AT = "xsub(%s, %s)" % (m('{j} + 1'), m('{j}'))
+END = "(len(result) - local('last_empirical_idx'))"
+
+TAIL_ZERO = ("forall(j, {e} - 1 <= j < len(result) - 1, not ({s} > 0 or {s} < 0))".format(e=END, s=STEP_AT.format(j='j')))
+
+
+def _tail_proof(P):
+    """the steps after the last non-zero one are zero: the reversed search skipped exactly those (explicit instance of
+    'nothing earlier in the reversed differences is non-zero' at the mirrored index)"""
+    E, env = P.E, P.env
+    env2 = dict(E.entry_env)
+    env2['result'] = env.get('__return__')
+    n = E.entry_env['pha_tnpi'].n
+    E.final_env = dict(env)
+    P.prove_clause('tail-steps-zero', TAIL_ZERO, env2, lambda j: [P.instq('next#2', 1, n - 2 - j), P.instq('next#2', 0)])
+
 
 contract(
     'bycycle.cyclepoints.phase._merge_phases',
@@ -31,10 +47,18 @@ contract(
         "0 <= local('last_empirical_idx') and local('first_empirical_idx') < len(result) - local('last_empirical_idx')",
         "forall(i, len(result) - local('last_empirical_idx') <= i < len(result), isnan(result[i]))",
         ("forall(i, local('first_empirical_idx') <= i < len(result) - local('last_empirical_idx'), same(result[i], %s))" % m('i')),
+        # F is itself a rising step; the step into the last unmasked sample is non-zero and every later step is zero
+        # (these three pin F and K down for the caller)
+        STEP_AT.format(j="local('first_empirical_idx')") + " > 0",
+        ("({s} > 0 or {s} < 0) and local('first_empirical_idx') <= {e} - 2".format(
+            s=STEP_AT.format(j="(%s - 2)" % END), e=END)),
+        TAIL_ZERO,
     ],
     # explicit witnesses for the two next(...) searches: the rising step assumed to exist; and, after the head has been
     # masked, that same rising step seen from the reversed end
     witness={2: "len(pha) - 2 - first_empirical_idx"},
+    proof={('before_return',): _tail_proof},
+    ensures_using={10: ['tail-steps-zero']},
     modifies=[],
     result=arr_result(XR),
 )
